@@ -46,7 +46,7 @@ def tlc_run(wd, name, commands, stream_opts=True):
               'Commands': '{' + ', '.join('"%s"' % c for c in commands) + '}', 'StreamOpts': 'TRUE' if stream_opts else 'FALSE'}
     text = tlc.mc_module(name, ['Cmd'], consts)
     cfg = tlc.mc_cfg(consts, invariants=['TypeOK', 'ValidInputNeverFails', 'InfoAndSplitNeverFail', 'SplitPiecesAreTheMessages',
-                                          'SingleModeIgnoresStreamOptions', 'FormatFromFlags', 'FilterAndContinue', 'AppendKeepsOld', 'Emit'])
+                                          'SingleModeIgnoresStreamOptions', 'FormatFromFlags', 'FilterAndContinue', 'AppendKeepsOld', 'ScriptLevelPrecedence', 'Emit'])
     res = tlc.run(wd, name, cfg, text, coverage=False, lazy_emitted=True)
     tlc.require_ok(res, name)
     return res
@@ -138,7 +138,8 @@ def argv_of(inv, names):
     elif c == 'query':
         a += (['-j'] if o['json'] else []) + (['-n'] if o['nested'] else []) + [MD_QUERY if o['md'] else DATA_QUERY]
     elif c == 'script':
-        a += ['-n', str(o['lvl']), MD_SCRIPT if o['md'] else DATA_SCRIPT]
+        body = MD_SCRIPT if o['md'] else DATA_SCRIPT
+        a += (['-n', str(o['lvl'])] if o['lvl'] != -1 else []) + ['--', ('#$ data_values_nest_level = %d\n' % o['pragma'] if o['pragma'] != -1 else '') + body]
     elif c == 'encode':
         a += (['-j'] if o['json'] else []) + (['-a'] if o['attributed'] else []) + (['--append'] if o['append'] else [])
         a += ['--preamble', PREAMBLE] if o['pre'] else []
